@@ -243,4 +243,108 @@ theorem call_import_retptr_correct (p : Nat) (hp4 : p = 4 ∨ p = 8) (canon : Ty
     simp [exec, Env.withLets, Env.bind] at hr' ⊢
     simp [hr', execOp, eval, Env.bind]
 
+theorem call_export_async_flat_shape (canon : Ty → Bool) (f : Func) (hnm : f.isMethod = false)
+    (hflat : (flattenList f.params).length ≤ 16) (hrflat : (flattenOpt f.result).length ≤ 16)
+    (ss : List Stmt) (h : call canon .guestExportAsync false true f = .ok ss) :
+    ∃ (args : List Expr), liftParams ⟨canon, false⟩ 16 f.params 0 = .ok args ∧
+      (match f.result with
+       | none => ss = [Stmt.eff (.callInterface f.params.length 0 true) args [], Stmt.eff (.asyncTaskReturn []) [] []]
+       | some t => ∃ s2 rs, lower ⟨canon, false⟩ 0 t (.res 0 (.callInterface f.params.length 1 true) args) = .ok (s2, rs) ∧
+           ss = [Stmt.eff (.callInterface f.params.length 1 true) args []] ++ s2 ++
+             [Stmt.eff (.asyncTaskReturn (flatten t)) rs []]) := by
+  have hsig : wasmSignature .guestExportAsync f = ⟨flattenList f.params, [.i32], false, false⟩ := by
+    have h1 : ¬ (flattenList f.params).length > 16 := by omega
+    simp [wasmSignature, maxFlatParams, h1, hnm]
+  cases hlp : liftParams ⟨canon, false⟩ 16 f.params 0 with
+  | error e => simp [call, hsig, hlp, Variant.isExport, maxFlatParams, bind, Except.bind] at h
+  | ok args =>
+    refine ⟨args, rfl, ?_⟩
+    cases hres : f.result with
+    | none =>
+      simp [call, hsig, hlp, hres, Variant.isExport, maxFlatParams, bind, Except.bind, pure, Except.pure, flattenOpt, resN] at h
+      simp [← h]
+    | some t =>
+      have hft : (flatten t).length ≤ 16 := by simpa [hres, flattenOpt] using hrflat
+      simp [call, hsig, hlp, hres, Variant.isExport, maxFlatParams, bind, Except.bind, pure, Except.pure, flattenOpt, resN, hd,
+        flatTypes, hft] at h
+      cases hl : lower { canon := canon, realloc := false } 0 t
+          (Expr.res 0 (Op.callInterface f.params.length 1 true) args) with
+      | error e => simp [hl] at h
+      | ok r =>
+        obtain ⟨s2, rs⟩ := r
+        have hlen := (lower_shape _ t 0 _ s2 rs hl).2
+        simp [hl, hlen] at h
+        exact ⟨s2, rs, hl, by simp [← h]⟩
+
+/-- **Async export glue, everything flat.**  For an async-lifted export (callback ABI) whose
+parameters and result are memory-free, with at most 16 flat parameters and at most 16 flat result
+values: the user function is called exactly once with the values the canonical ABI assigns to the
+incoming core values (stuck iff the spec traps), and the result is reported through **exactly one**
+`task.return` whose operands are the canonical flat lowering of the result; nothing is freed. -/
+theorem call_export_async_flat_correct (p : Nat) (hp4 : p = 4 ∨ p = 8) (canon : Ty → Bool) (f : Func)
+    (hnm : f.isMethod = false)
+    (incoming : List CVal) (rv : Option Val)
+    (hm : memFreeAll f.params = true) (hflat : (flattenList f.params).length ≤ 16)
+    (hwf : WfFlat incoming (Spec.flattenList p f.params))
+    (hmr : memFreeOpt f.result = true) (hrflat : (flattenOpt f.result).length ≤ 16)
+    (hrv : hasTyOpt f.result rv = true)
+    (ss : List Stmt) (h : call canon .guestExportAsync false true f = .ok ss) :
+    let env : Env := { p, args := incoming.map MV.c, ifaceResult := rv.toList.map MV.v }
+    (execStmts env {} ss).map (fun r => (r.2.calls, r.2.freed)) =
+      (specLiftAll p [] f.params incoming).map fun vals =>
+        ([("AsyncTaskReturn", (Spec.lowerOpt p f.result rv {}).1.map MV.c), ("CallInterface", vals.map MV.v)], []) := by
+  obtain ⟨im, ps, res⟩ := f
+  simp only at hnm hm hflat hwf hmr hrflat hrv
+  intro env
+  have ⟨args, hlp, hshape⟩ := call_export_async_flat_shape canon ⟨im, ps, res⟩ hnm hflat hrflat ss h
+  simp only at hlp hshape
+  have hargs := liftParams_sound p hp4 ⟨canon, false⟩ env [] rfl ps incoming 0 args hm hflat hwf
+    (by intro i hi; simp [env, hi]) hlp
+  cases hla : specLiftAll p [] ps incoming with
+  | none =>
+    rw [hla] at hargs
+    cases res with
+    | none => simp only at hshape; subst hshape; simp [execStmts, exec, hargs]
+    | some t =>
+      simp only at hshape
+      obtain ⟨s2, rs, _, hss⟩ := hshape
+      subst hss
+      simp [execStmts, exec, hargs]
+  | some vals =>
+    rw [hla] at hargs
+    simp at hargs
+    cases res with
+    | none =>
+      simp only at hshape
+      subst hshape
+      cases rv with
+      | some v => simp [hasTyOpt] at hrv
+      | none =>
+        simp [env] at hargs
+        simp [execStmts, exec, hargs, execOp, Spec.lowerOpt, env]
+    | some t =>
+      simp only at hshape
+      obtain ⟨s2, rs, hlow, hss⟩ := hshape
+      subst hss
+      cases rv with
+      | none => simp [hasTyOpt] at hrv
+      | some v =>
+        simp [hasTyOpt] at hrv
+        simp [memFreeOpt] at hmr
+        have hs2 := (lower_shape _ t 0 _ s2 rs hlow).1 hmr
+        subst hs2
+        have hci : exec env {} (Stmt.eff (.callInterface ps.length 1 true) args []) =
+            some (env.bind (.callInterface ps.length 1 true) args [MV.v v],
+              { calls := [("CallInterface", vals.map MV.v)] }) := by
+          simp [env] at hargs
+          simp [exec, hargs, execOp, env]
+        have hx : eval (env.bind (.callInterface ps.length 1 true) args [MV.v v]) []
+            (.res 0 (.callInterface ps.length 1 true) args) = some (.v v) := by
+          simp [eval, Env.bind]
+        have hrs := lower_sound p hp4 ⟨canon, false⟩ v t hmr hrv 0 _
+          (env.bind (.callInterface ps.length 1 true) args [MV.v v]) [] {} [] rs rfl rfl hx hlow
+        simp only [List.singleton_append, List.append_nil, List.cons_append, List.nil_append, execStmts, hci,
+          Option.bind_some]
+        simp [exec, hrs, execOp, Spec.lowerOpt]
+
 end Witverif.Abi
